@@ -22,7 +22,7 @@ SHARDS = {"quick": 8, "thorough": 16}
 TIMEOUT_S = {"quick": 600, "thorough": 3000}
 BUDGET_S = {"quick": 90, "thorough": 1500}
 RULE = ("template-directed generation over all templates (every template in every run; quick 24 messages per template, "
-        "thorough 16 shards x 60): block counts 0..255, wire-domain values per type, every flag subset incl. unknown "
+        "thorough 16 shards x 300): block counts 0..255, wire-domain values per type, every flag subset incl. unknown "
         "low bits, 0-255 acks, 0-255 extra bytes, trailing Single blocks omitted, default-filled blocks with random "
         "unset variables. distinct_nontrivial = distinct (message, block-count vector, flags, #acks, #extra, unset set)")
 ASSUMPTIONS = [
@@ -244,7 +244,7 @@ def directed(ctx):
 def run(ctx):
     rng = ctx.rng
     templates = gen_msg.all_templates()
-    per_template = ctx.pick(24, 60)
+    per_template = ctx.pick(24, 300)
     covered = set()
     if ctx.shard == 0:
         directed(ctx)
